@@ -1577,8 +1577,31 @@ def rule_slot_store_linked(db: ProgramDB) -> List[Instance]:
                         tgt_child = unparse([tt for tt in x.targets if isinstance(tt, ast.Attribute) and tt.attr == "_parent_"][0].value)
                         if isinstance(child, ast.Name) and tgt_child == child.id and unparse(x.value) == owner:
                             linked = True
+                if linked:
+                    # ... on every path from the store to the end of the function, not only somewhere in it
+                    def is_link(nd, owner=owner, child=child):
+                        for x in ([nd.ast] if nd.ast is not None else []):
+                            scan = x.test if isinstance(x, (ast.If, ast.While)) else x.iter if isinstance(x, ast.For) else x
+                            for y in ast.walk(scan):
+                                if isinstance(y, ast.Call) and call_attr(y) in ("_update_child_", "_update_children_") and unparse(y.func.value) == owner:
+                                    return True
+                                if isinstance(y, ast.Assign) and any(isinstance(tt, ast.Attribute) and tt.attr == "_parent_" and isinstance(child, ast.Name)
+                                                                     and unparse(tt.value) == child.id for tt in y.targets) and unparse(y.value) == owner:
+                                    return True
+                        return False
+                    cfg = CFG(fn)
+                    starts = cfg.node_of_stmt(a)
+                    if not starts:
+                        raise AnalysisError(f"{fn.qualname}: the store `{unparse(a)[:50]}` is not a node of the flow graph")
+                    for sn in starts:
+                        if is_link(sn):
+                            continue
+                        pth = cfg.find_path(sn.id, lambda nd: nd.id == cfg.exit, kinds=("n",), blocked=is_link)
+                        before = cfg.find_path(cfg.entry, lambda nd, sn=sn: nd.id == sn.id, kinds=("n",), blocked=is_link)
+                        if pth is not None and (before is not None or sn.id == cfg.entry):
+                            linked = False          # a path through the store on which the link is made neither before nor after it
                 out.append(inst("SLOT-STORE-LINKED", HOLDS if linked else VIOLATION, fn, f"{fn.short}[{unparse(t)} = {unparse(child)[:30]}]",
-                                "the stored node is linked below its new owner in the graph as well" if linked else
+                                "the stored node is linked below its new owner in the graph as well, on every path from the store to the end of the function" if linked else
                                 f"`{unparse(a)[:70]}` puts a node into the slot of `{owner}` without linking it below `{owner}` in the graph: it is evaluated, but the per-evaluation "
                                 f"reset and the invalidation of result caches never reach it - a variable without a domain inside it (SameN(other=let(A)) attached inside "
                                 f"`with query:`) keeps the instances of its first evaluation", line=a.lineno))
